@@ -117,6 +117,63 @@ def _(c):
         c.ensure('serialises-back', t.lsh_code == h and t.digest().lsh_code == h)
         c.ensure('fields', bytes(swap(x) for x in t.checksum) == h[:k] and swap(t.Lvalue) == h[k] and (t.q1_ratio << 4 | t.q2_ratio) == h[k + 1] and bytes(t.tmp_code[::-1]) == h[k + 2:])
 
+@obligation(P, 'TLSH.from_hash/roundtrip-every-digest', cls='L', cases={'b': [48, 128, 256], 'k': [1, 3]}, funcs=['crysp.tlsh.TLSH.from_hash', 'crysp.tlsh.TLSH.digest', 'crysp.tlsh.TLSH.reset'],
+            note='EVERY byte string of the digest length (symbolic): from_hash recovers the fields and digest() serialises them back to the same bytes, from an object that has hashed something else before')
+def _(c):
+    b, k = c.case('b'), c.case('k'); n = k + 2 + b // 4
+    h = c.bytes('h', n)
+    o = tlsh.TLSH(b, chklen=k)
+    o(bytes(range(256)) * 2)                                   # some earlier use of the object
+    t = c.call(tlsh.TLSH.from_hash, o, h)
+    c.ensure('returns-self', t is o)
+    c.ensure('serialises-back', val.eq(list(t.lsh_code), list(h)))
+    c.call(tlsh.TLSH.digest, t)
+    c.ensure('digest-again', val.eq(list(t.lsh_code), list(h)))
+    sw = lambda x: ((x & 0xf) << 4) | (x >> 4)
+    c.ensure('checksum', val.eq(list(t.checksum), [sw(x) for x in list(h)[:k]]))
+    c.ensure('Lvalue', val.eq(t.Lvalue, sw(h[k])))
+    c.ensure('ratios', land(val.eq(t.q1_ratio, h[k + 1] >> 4), val.eq(t.q2_ratio, h[k + 1] & 0xf)))
+    c.ensure('code', val.eq(list(t.tmp_code), list(h)[k + 2:][::-1]))
+    c.ensure('valid', t.lsh_code_valid is True)
+
+@obligation(P, 'tlsh.distance/laws-every-pair', cls='L', cases={'b': [48], 'k': [1, 3]}, funcs=['crysp.tlsh.distance', 'crysp.tlsh.TLSH.from_hash'], timeout=300,
+            note='EVERY pair of 48-bucket digests (symbolic), whole function: the distance is a non-negative integer, symmetric, and zero on identical digests; the larger layouts are decided by the two obligations below')
+def _(c):
+    b, k = c.case('b'), c.case('k'); n = k + 2 + b // 4
+    x = c.bytes('x', n); y = c.bytes('y', n)
+    dxy = c.call(tlsh.distance, x, y)
+    dyx = c.call(tlsh.distance, y, x)
+    c.ensure('non-negative', dxy >= 0)
+    c.ensure('symmetric', val.eq(dxy, dyx))
+    c.ensure('zero-on-identical', val.eq(c.call(tlsh.distance, x, x), 0))
+
+@obligation(P, 'tlsh.distance/header-laws', cls='L', cases={'b': [48, 128, 256], 'k': [1, 3]}, funcs=['crysp.tlsh.distance', 'crysp.tlsh.TLSH.from_hash'], timeout=300,
+            note='EVERY pair of digests (symbolic), the part of the distance computed before the bucket-code loop (checksum, L value, Q ratios): non-negative, symmetric, zero on identical digests; '
+                 'the loop is replaced by a contract that adds nothing here and is treated by tlsh.distance/code-loop-step')
+def _(c):
+    b, k = c.case('b'), c.case('k'); n = k + 2 + b // 4
+    c.loop_contract('crysp.tlsh.distance', 0, lambda I, env: None)
+    x = c.bytes('x', n); y = c.bytes('y', n)
+    dxy = c.call(tlsh.distance, x, y)
+    dyx = c.call(tlsh.distance, y, x)
+    c.ensure('non-negative', dxy >= 0)
+    c.ensure('symmetric', val.eq(dxy, dyx))
+    c.ensure('zero-on-identical', val.eq(c.call(tlsh.distance, x, x), 0))
+
+@obligation(P, 'tlsh.distance/code-loop-step', cls='I', funcs=['crysp.tlsh.distance'],
+            note='one iteration of the bucket-code loop for EVERY pair of code bytes and every distance accumulated so far: the increment is non-negative, the same for (a,b) and (b,a), and zero for (a,a) - '
+                 'with tlsh.distance/header-laws the invariant "distance(x,y) == distance(y,x) >= 0 so far, 0 if x == y" holds before, during and after the loop for every layout')
+def _(c):
+    D = c.int('diff', 0, 1 << 40); a = c.int('a', 0, 255); b = c.int('b', 0, 255)
+    def step(tx, ty):
+        ys, loc = c.loop_body(tlsh.distance, 0, {'h0': None, 'h1': None, 'lvalue': True, 'th0': None, 'th1': None, 'diff': D, 'tx': tx, 'ty': ty, 'l': None, 'd': None})
+        return loc['diff']
+    dab, dba, daa = step(a, b), step(b, a), step(a, a)
+    c.ensure('non-negative-increment', dab >= D)
+    c.ensure('symmetric-increment', val.eq(dab, dba))
+    c.ensure('zero-increment-on-equal', val.eq(daa, D))
+    c.ensure('bounded-increment', dab <= D + 24)
+
 @obligation(P, 'tlsh.distance/laws', cls='B', native=True, bound='6 layouts, 40 seeded digest pairs each plus near pairs (one nibble apart)', cases={'b': [48, 128, 256], 'k': [1, 3]}, funcs=['crysp.tlsh.distance', 'crysp.tlsh.TLSH.distance_to'])
 def _(c):
     b, k = c.case('b'), c.case('k'); n = k + 2 + b // 4
